@@ -22,14 +22,32 @@ Qed.
 Lemma mem_false n l : mem n l = false <-> ~ In n l.
 Proof. rewrite <- mem_In. destruct (mem n l); split; intros; congruence. Qed.
 
-Fixpoint nodupb (l : list string) : bool :=
-  match l with [] => true | a :: r => negb (mem a r) && nodupb r end.
-
 Lemma nodupb_NoDup l : nodupb l = true -> NoDup l.
 Proof.
   induction l as [|a r IH]; intros H; [constructor|].
   cbn [nodupb] in H. apply andb_true_iff in H as [Ha Hr]. constructor; [|now apply IH].
   apply mem_false. now destruct (mem a r).
+Qed.
+
+Lemma NoDup_nodupb l : NoDup l -> nodupb l = true.
+Proof.
+  induction 1 as [|a r Ha _ IH]; [reflexivity|]. cbn [nodupb]. rewrite IH.
+  apply mem_false in Ha. now rewrite Ha.
+Qed.
+
+Lemma NoDup_app_iff {A} (a b : list A) : NoDup (a ++ b) <-> NoDup a /\ NoDup b /\ (forall x, In x a -> ~ In x b).
+Proof.
+  induction a as [|x a IH]; cbn [app].
+  - split.
+    + intros H. split; [constructor|]. split; [exact H|intros x []].
+    + intros (_ & H & _). exact H.
+  - split.
+    + intros H. inversion H as [|? ? Hx Hr]; subst. apply IH in Hr as (Ha & Hb & Hd).
+      split; [constructor; [intros Hin; apply Hx, in_or_app; now left|exact Ha]|].
+      split; [exact Hb|]. intros y [<-|Hy]; [intros Hin; apply Hx, in_or_app; now right|now apply Hd].
+    + intros (Ha & Hb & Hd). inversion Ha as [|? ? Hx Hr]; subst. constructor.
+      * intros Hin. apply in_app_or in Hin as [Hin|Hin]; [contradiction|]. apply (Hd x); [now left|exact Hin].
+      * apply IH. split; [exact Hr|]. split; [exact Hb|]. intros y Hy. apply Hd. now right.
 Qed.
 
 Lemma lookup_in n p : In n (map fst p) -> exists v, lookup n p = Some v.
@@ -210,6 +228,39 @@ Lemma fmt_nodup T : fmt_ok T = true -> NoDup (dim_names T).
 Proof.
   unfold fmt_ok. intros H. repeat (apply andb_true_iff in H as [H ?]). now apply nodupb_NoDup.
 Qed.
+
+Lemma fmt_storage_nodup T : fmt_ok T = true -> NoDup (storage_names T).
+Proof.
+  unfold fmt_ok. intros H. repeat (apply andb_true_iff in H as [H ?]). now apply nodupb_NoDup.
+Qed.
+
+(* ---------------- the dtype of the new record ---------------- *)
+Lemma dtype_ok_iff T eds : NoDup (storage_names T) -> NoDup (map ed_name eds) ->
+  (dtype_ok T eds = true <-> forall e, In e eds -> ~ In (ed_name e) (storage_names T)).
+Proof.
+  intros Ht He. unfold dtype_ok, record_names. split.
+  - intros H e Hin Hs. apply nodupb_NoDup in H. apply NoDup_app_iff in H as (_ & _ & Hd).
+    apply (Hd _ Hs). now apply in_map.
+  - intros H. apply NoDup_nodupb. apply NoDup_app_iff. split; [exact Ht|]. split; [exact He|].
+    intros x Hx Hin. apply in_map_iff in Hin as (e & <- & Hine). exact (H e Hine Hx).
+Qed.
+
+Lemma clashb_iff T eds : clashb T eds = true <-> name_clash T eds.
+Proof.
+  unfold clashb, name_clash. rewrite existsb_exists. split; intros (e & Hin & H); exists e; (split; [exact Hin|]); now apply mem_In.
+Qed.
+
+Lemma dtype_ok_clashb T eds : NoDup (storage_names T) -> NoDup (map ed_name eds) -> dtype_ok T eds = negb (clashb T eds).
+Proof.
+  intros Ht He. destruct (clashb T eds) eqn:C; cbn [negb].
+  - apply clashb_iff in C as (e & Hin & Hs). destruct (dtype_ok T eds) eqn:D; [|reflexivity].
+    exfalso. pose proof (proj1 (dtype_ok_iff T eds Ht He) D) as D'. exact (D' e Hin Hs).
+  - apply (proj2 (dtype_ok_iff T eds Ht He)). intros e Hin Hs.
+    assert (clashb T eds = true) as C' by (apply clashb_iff; exists e; auto). congruence.
+Qed.
+
+Lemma wf_names l : wf_las l -> NoDup (map ed_name (l_edims l)).
+Proof. intros (_ & Hnd & _). unfold record_names in Hnd. now apply NoDup_app_iff in Hnd as (_ & H & _). Qed.
 
 Lemma fmt_xyz T : fmt_ok T = true ->
   (In "X"%string (dim_names T) /\ In "Y"%string (dim_names T) /\ In "Z"%string (dim_names T))
@@ -551,9 +602,11 @@ Lemma convert_inv l tgt ver l' : convert l tgt ver = Ok l' ->
   exists hs, hstep (mkHS (l_ver l) (l_fmt l)) (HConvert tgt ver) = Ok hs
     /\ l_ver l' = hs_v hs /\ l_fmt l' = hs_f hs /\ l_edims l' = l_edims l
     /\ mapM (convert_point (l_fmt l) (hs_f hs) (l_edims l)) (l_pts l) = Ok (l_pts l')
-    /\ l_vlrs l' = user_vlrs (l_vlrs l) ++ eb_part (l_edims l) /\ l_evlrs l' = l_evlrs l.
+    /\ l_vlrs l' = user_vlrs (l_vlrs l) ++ eb_part (l_edims l) /\ l_evlrs l' = l_evlrs l
+    /\ dtype_ok (hs_f hs) (l_edims l) = true.
 Proof.
   unfold convert. destruct (hstep _ _) as [hs|e] eqn:Eh; [|discriminate]. cbn [bind].
+  destruct (dtype_ok _ _) eqn:Ed; [|discriminate].
   destruct (mapM _ _) as [pts|e] eqn:Em; [|discriminate]. cbn [bind]. intros [= <-]. exists hs. cbn. auto 10.
 Qed.
 
@@ -642,7 +695,7 @@ Proof.
   intros H Hwf. split; [apply convert_inv in H as (hs & _ & _ & _ & He & _); exact He|].
   intros i da db Hi. pose proof (convert_point_at _ _ _ _ i H Hi da db) as Hc. unfold convert_point in Hc.
   destruct (copy_std _ _ _) as [sp'|e]; [|discriminate]. cbn [bind] in Hc. injection Hc as Hc. rewrite <- Hc. cbn [snd].
-  destruct (wf_nth l i da Hwf Hi) as [_ Hl]. destruct Hwf as (_ & Hnd & _). now apply copy_ext_id.
+  destruct (wf_nth l i da Hwf Hi) as [_ Hl]. apply copy_ext_id; [exact Hl|now apply wf_names].
 Qed.
 
 Lemma filter_fst_user (vs : list cvlr) : filter (fun v : cvlr => fst v) (user_vlrs vs) = [].
@@ -680,7 +733,7 @@ Proof.
 Qed.
 
 Theorem convert_evlrs l tgt ver l' : convert l tgt ver = Ok l' -> l_evlrs l' = l_evlrs l.
-Proof. intros H. now apply convert_inv in H as (hs & _ & _ & _ & _ & _ & _ & He). Qed.
+Proof. intros H. now apply convert_inv in H as (hs & _ & _ & _ & _ & _ & _ & He & _). Qed.
 
 (* version rule *)
 Theorem convert_version l tgt ver l' : convert l tgt ver = Ok l' ->
@@ -709,24 +762,75 @@ Proof.
   destruct (version_known w); reflexivity.
 Qed.
 
-(* narrowing: the outcome is decided by the version rule, then by whether every value fits *)
+(* the outcome is decided by the version rule, then by the field names of the new record (numpy), then by whether
+   every value fits *)
 Definition point_misfit (S T : Z) (p : point) : Prop := exists n, In n (dim_names T) /\ misfit S T (fst p) n.
 
-Theorem convert_outcome l tgt ver hs : wf_las l -> hstep (mkHS (l_ver l) (l_fmt l)) (HConvert tgt ver) = Ok hs ->
-  (exists l', convert l tgt ver = Ok l' /\ forall p, In p (l_pts l) -> ~ point_misfit (l_fmt l) (hs_f hs) p)
-  \/ (convert l tgt ver = Err EOverflow /\ exists p, In p (l_pts l) /\ point_misfit (l_fmt l) (hs_f hs) p).
+Lemma hstep_target_ok l tgt ver hs : wf_las l -> hstep (mkHS (l_ver l) (l_fmt l)) (HConvert tgt ver) = Ok hs ->
+  fmt_ok (hs_f hs) = true /\ pair_ok (l_fmt l) (hs_f hs) = true
+  /\ dtype_ok (hs_f hs) (l_edims l) = negb (clashb (hs_f hs) (l_edims l)).
 Proof.
-  intros (Hs & _) Hh. unfold convert. rewrite Hh. cbn [bind].
+  intros Hwf Hh. pose proof Hwf as (Hs & _).
   pose proof (hcompat_std _ (hstep_compat _ _ _ Hh)) as Ht.
-  pose proof (fmt_ok_std _ Ht) as HokT. pose proof (pair_ok_std _ _ Hs Ht) as Hp.
-  destruct (mapM_total (convert_point (l_fmt l) (hs_f hs) (l_edims l)) EOverflow (point_misfit (l_fmt l) (hs_f hs)) (l_pts l))
-    as [(pts & Em & Hfit)|(Em & p & Hp' & Hbad)].
-  - intros p _. unfold convert_point, point_misfit.
-    destruct (copy_std_total (l_fmt l) (hs_f hs) (fst p) HokT Hp) as [(sp' & E & Hfit)|(E & n & Hn & Hm)].
-    + left. rewrite E. cbn [bind]. eexists. split; [reflexivity|]. intros (n & Hn & Hm). exact (Hfit n Hn Hm).
-    + right. rewrite E. cbn [bind]. split; [reflexivity|]. eauto.
-  - left. rewrite Em. cbn [bind]. eexists. split; [reflexivity|exact Hfit].
-  - right. rewrite Em. cbn [bind]. split; [reflexivity|]. eauto.
+  pose proof (fmt_ok_std _ Ht) as HokT. split; [exact HokT|]. split; [now apply pair_ok_std|].
+  apply dtype_ok_clashb; [now apply fmt_storage_nodup|now apply wf_names].
+Qed.
+
+Theorem convert_outcome l tgt ver hs : wf_las l -> hstep (mkHS (l_ver l) (l_fmt l)) (HConvert tgt ver) = Ok hs ->
+  (name_clash (hs_f hs) (l_edims l) /\ convert l tgt ver = Err EValue)
+  \/ (~ name_clash (hs_f hs) (l_edims l)
+      /\ ((exists l', convert l tgt ver = Ok l' /\ forall p, In p (l_pts l) -> ~ point_misfit (l_fmt l) (hs_f hs) p)
+          \/ (convert l tgt ver = Err EOverflow /\ exists p, In p (l_pts l) /\ point_misfit (l_fmt l) (hs_f hs) p))).
+Proof.
+  intros Hwf Hh. destruct (hstep_target_ok l tgt ver hs Hwf Hh) as (HokT & Hp & Hd).
+  unfold convert. rewrite Hh. cbn [bind]. rewrite Hd.
+  destruct (clashb (hs_f hs) (l_edims l)) eqn:C; cbn [negb].
+  - left. split; [now apply clashb_iff|reflexivity].
+  - right. split; [intros Hc; apply clashb_iff in Hc; congruence|].
+    destruct (mapM_total (convert_point (l_fmt l) (hs_f hs) (l_edims l)) EOverflow (point_misfit (l_fmt l) (hs_f hs)) (l_pts l))
+      as [(pts & Em & Hfit)|(Em & p & Hp' & Hbad)].
+    + intros p _. unfold convert_point, point_misfit.
+      destruct (copy_std_total (l_fmt l) (hs_f hs) (fst p) HokT Hp) as [(sp' & E & Hfit)|(E & n & Hn & Hm)].
+      * left. rewrite E. cbn [bind]. eexists. split; [reflexivity|]. intros (n & Hn & Hm). exact (Hfit n Hn Hm).
+      * right. rewrite E. cbn [bind]. split; [reflexivity|]. eauto.
+    + left. rewrite Em. cbn [bind]. eexists. split; [reflexivity|exact Hfit].
+    + right. rewrite Em. cbn [bind]. split; [reflexivity|]. eauto.
+Qed.
+
+(* an extra dimension named like a packed field of the target: refused, whatever the values *)
+Theorem convert_clash_refused l tgt ver hs e : wf_las l -> hstep (mkHS (l_ver l) (l_fmt l)) (HConvert tgt ver) = Ok hs ->
+  In e (l_edims l) -> In (ed_name e) (storage_names (hs_f hs)) -> convert l tgt ver = Err EValue.
+Proof.
+  intros Hwf Hh Hin Hs. destruct (convert_outcome l tgt ver hs Hwf Hh) as [[_ E]|[Hn _]]; [exact E|].
+  exfalso. apply Hn. exists e. auto.
+Qed.
+
+Theorem convert_value_error_iff l tgt ver hs : wf_las l -> hstep (mkHS (l_ver l) (l_fmt l)) (HConvert tgt ver) = Ok hs ->
+  (convert l tgt ver = Err EValue <-> name_clash (hs_f hs) (l_edims l)).
+Proof.
+  intros Hwf Hh. destruct (convert_outcome l tgt ver hs Hwf Hh) as [[Hc E]|[Hn [(l' & E & _)|[E _]]]].
+  - split; auto.
+  - split; [rewrite E; discriminate|contradiction].
+  - split; [rewrite E; discriminate|contradiction].
+Qed.
+
+(* the result is again a well-formed object: its record has no repeated field name, every point has the target's
+   packed fields and one value per extra dimension (so a result can be converted again) *)
+Theorem convert_wf l tgt ver l' : convert l tgt ver = Ok l' -> wf_las l -> wf_las l'.
+Proof.
+  intros H Hwf. pose proof (convert_inv _ _ _ _ H) as (hs & Hh & _ & Hf & He & Hm & _ & _ & Hd).
+  destruct (convert_fmts_ok _ _ _ _ H Hwf) as (_ & HokT & Hp). rewrite Hf in HokT, Hp.
+  split; [rewrite Hf; exact (hcompat_std _ (hstep_compat _ _ _ Hh))|]. split.
+  - rewrite Hf, He. unfold dtype_ok in Hd. now apply nodupb_NoDup.
+  - rewrite Hf, He. clear H Hf He. revert Hm. generalize (l_pts l'). induction (l_pts l) as [|a r IH]; intros pts Hm.
+    + cbn in Hm. injection Hm as <-. constructor.
+    + cbn [mapM] in Hm. destruct (convert_point (l_fmt l) (hs_f hs) (l_edims l) a) as [b|e] eqn:Ea; [|discriminate].
+      cbn [bind] in Hm. destruct (mapM _ r) as [bs|e] eqn:Er; [|discriminate]. cbn [bind] in Hm. injection Hm as <-.
+      constructor; [|now apply IH].
+      unfold convert_point in Ea. destruct (copy_std _ _ _) as [sp|e] eqn:Ec; [|discriminate]. cbn [bind] in Ea.
+      injection Ea as <-. split; cbn [fst snd].
+      * now destruct (copy_std_spec _ _ _ _ HokT Hp Ec) as [Hk _].
+      * unfold copy_ext. now rewrite map_length.
 Qed.
 
 (* lost dimensions *)
@@ -753,34 +857,52 @@ Qed.
 
 (* the two directions of convert_outcome, per point and dimension *)
 Theorem convert_narrowing l tgt ver hs i d n v c m : wf_las l ->
-  hstep (mkHS (l_ver l) (l_fmt l)) (HConvert tgt ver) = Ok hs -> (i < length (l_pts l))%nat ->
+  hstep (mkHS (l_ver l) (l_fmt l)) (HConvert tgt ver) = Ok hs -> ~ name_clash (hs_f hs) (l_edims l) ->
+  (i < length (l_pts l))%nat ->
   In n (dim_names (hs_f hs)) -> dim_val (l_fmt l) (fst (nth i (l_pts l) d)) n = Some v ->
   sub_of (hs_f hs) n = Some (c, m) -> (v > sf_max m \/ v < 0) -> convert l tgt ver = Err EOverflow.
 Proof.
-  intros Hwf Hh Hi Hn Hv Hs Hbad.
-  destruct (convert_outcome l tgt ver hs Hwf Hh) as [(l' & _ & Hfit)|[E _]]; [|exact E].
+  intros Hwf Hh Hnc Hi Hn Hv Hs Hbad.
+  destruct (convert_outcome l tgt ver hs Hwf Hh) as [[Hc _]|[_ [(l' & _ & Hfit)|[E _]]]]; [contradiction| |exact E].
   exfalso. apply (Hfit (nth i (l_pts l) d)); [now apply nth_In|]. exists n. split; [exact Hn|].
   unfold dim_val in Hv. destruct (get_dim (l_fmt l) (fst (nth i (l_pts l) d)) n) as [[v' t]|] eqn:G; [|discriminate].
   cbn [fst] in Hv. injection Hv as ->. exists v, t, c, m. auto.
 Qed.
 
+(* a misfit is never answered by a result, name clash or not *)
+Theorem convert_never_truncates l tgt ver hs i d n v c m : wf_las l ->
+  hstep (mkHS (l_ver l) (l_fmt l)) (HConvert tgt ver) = Ok hs -> (i < length (l_pts l))%nat ->
+  In n (dim_names (hs_f hs)) -> dim_val (l_fmt l) (fst (nth i (l_pts l) d)) n = Some v ->
+  sub_of (hs_f hs) n = Some (c, m) -> (v > sf_max m \/ v < 0) ->
+  convert l tgt ver = Err EOverflow \/ convert l tgt ver = Err EValue.
+Proof.
+  intros Hwf Hh Hi Hn Hv Hs Hbad.
+  destruct (convert_outcome l tgt ver hs Hwf Hh) as [[_ E]|[Hnc _]]; [now right|left].
+  exact (convert_narrowing l tgt ver hs i d n v c m Hwf Hh Hnc Hi Hn Hv Hs Hbad).
+Qed.
+
 Theorem convert_fits l tgt ver hs : wf_las l -> hstep (mkHS (l_ver l) (l_fmt l)) (HConvert tgt ver) = Ok hs ->
+  (forall e, In e (l_edims l) -> ~ In (ed_name e) (storage_names (hs_f hs))) ->
   (forall p n v c m, In p (l_pts l) -> In n (dim_names (hs_f hs)) -> dim_val (l_fmt l) (fst p) n = Some v ->
      sub_of (hs_f hs) n = Some (c, m) -> 0 <= v <= sf_max m) ->
   exists l', convert l tgt ver = Ok l'.
 Proof.
-  intros Hwf Hh Hall.
-  destruct (convert_outcome l tgt ver hs Hwf Hh) as [(l' & E & _)|(_ & p & Hp & n & Hn & v & t & c & m & G & Hs & Hbad)]; [eauto|].
-  exfalso. assert (dim_val (l_fmt l) (fst p) n = Some v) as Hv by (unfold dim_val; now rewrite G).
-  specialize (Hall p n v c m Hp Hn Hv Hs). lia.
+  intros Hwf Hh Hnames Hall.
+  destruct (convert_outcome l tgt ver hs Hwf Hh)
+    as [[(e & Hin & Hs) _]|[_ [(l' & E & _)|(_ & p & Hp & n & Hn & v & t & c & m & G & Hs & Hbad)]]].
+  - exfalso. exact (Hnames e Hin Hs).
+  - eauto.
+  - exfalso. assert (dim_val (l_fmt l) (fst p) n = Some v) as Hv by (unfold dim_val; now rewrite G).
+    specialize (Hall p n v c m Hp Hn Hv Hs). lia.
 Qed.
 
-(* an error of convert is a LaspyException (version rule) or an OverflowError, nothing else *)
-Theorem convert_errors l tgt ver e : wf_las l -> convert l tgt ver = Err e -> e = ELaspy \/ e = EOverflow.
+(* an error of convert is a LaspyException (version rule), a ValueError (field names) or an OverflowError, nothing else *)
+Theorem convert_errors l tgt ver e : wf_las l -> convert l tgt ver = Err e -> e = ELaspy \/ e = EValue \/ e = EOverflow.
 Proof.
   intros Hwf H. destruct (hstep (mkHS (l_ver l) (l_fmt l)) (HConvert tgt ver)) as [hs|e'] eqn:Hh.
-  - destruct (convert_outcome l tgt ver hs Hwf Hh) as [(l' & E & _)|[E _]]; rewrite E in H; [discriminate|].
-    right. congruence.
+  - destruct (convert_outcome l tgt ver hs Hwf Hh) as [[_ E]|[_ [(l' & E & _)|[E _]]]]; rewrite E in H; [|discriminate|].
+    + right. left. congruence.
+    + right. right. congruence.
   - unfold convert in H. rewrite Hh in H. cbn [bind] in H. injection H as <-. left.
     cbn [hstep] in Hh. unfold checked in Hh.
     destruct ver as [w|].
